@@ -5,9 +5,11 @@ import (
 	"encoding/json"
 	"fmt"
 	"os"
+	"runtime/pprof"
 	"strconv"
 	"strings"
 	"testing"
+	"time"
 )
 
 // TestWorker is the entry point of a worker process: it executes the runs of
@@ -49,7 +51,22 @@ func TestWorker(t *testing.T) {
 			}
 			fmt.Fprintf(jr, "MARK %d %s\n", i, tag)
 		}
+		var wd *time.Timer
+		if job.RunLimitS > 0 {
+			// a real-time watchdog outside the bubble: a run that does not come back
+			// (a goroutine of the library blocked on a mutex for good stops virtual
+			// time and every synctest.Wait) ends the process with a goroutine dump
+			wd = time.AfterFunc(time.Duration(job.RunLimitS)*time.Second, func() {
+				fmt.Fprintf(jr, "HANG %d\n", i)
+				fmt.Fprintf(os.Stderr, "HANG: run %d did not finish within %d s of real time; goroutines:\n", i, job.RunLimitS)
+				pprof.Lookup("goroutine").WriteTo(os.Stderr, 2)
+				os.Exit(3)
+			})
+		}
 		res := RunOne(t, spec)
+		if wd != nil {
+			wd.Stop()
+		}
 		JournalMark = nil
 		b, _ := json.Marshal(res)
 		w.Write(b)
